@@ -196,6 +196,7 @@ func checkC19(p *Prog, r *Report) {
 	/* Helpers which arm the timer (resetSilenceTimer and whatever replaces
 	it) are folded into their callers before analysis, so the time store
 	and the timer reset are looked for where they happen. */
+	rearmsFromLast := false
 	isReset := func(i ssa.Instruction) (bool, ssa.Value) {
 		c := callCommon(i)
 		if nil == c {
@@ -494,6 +495,18 @@ func checkC19(p *Prog, r *Report) {
 				if nil != calm {
 					miss := reachQ{From: edgeLoc(calm.Block(), notCalm), Target: isReturn, Block: func(j ssa.Instruction) bool { ok, _ := isReset(j); return ok }}.run()
 					if nil == miss {
+						/* Re-armed for the last suppressed write plus the
+						pause (not for a constant)? */
+						eachInstr(fn, func(j ssa.Instruction) {
+							if ok, _ := isReset(j); ok && canReach(edgeLoc(calm.Block(), notCalm), j) {
+								if c := callCommon(j); nil != c && 2 == len(c.Args) && operandsReach(c.Args[1], func(x ssa.Value) bool {
+									fv, _ := loadedField(x)
+									return fv == last
+								}) {
+									rearmsFromLast = true
+								}
+							}
+						})
 						rUn.OK(fnName(fn)+":rearm", posOf(calm), "when output is not yet calm the timer is re-armed")
 					} else {
 						rUn.Bad(fnName(fn)+":rearm", posOf(calm), "when output is not yet calm the timer function returns without re-arming: output stays muted forever")
@@ -614,6 +627,11 @@ func checkC19(p *Prog, r *Report) {
 		switch {
 		case nil != (reachQ{From: from, Target: endOfLine, Block: recordsNow}).run():
 			rArm.Bad(fnName(wp)+":suppressed-write-rearms", posOf(ifi), "a suppressed plain write does not record its time: muting ends although output is still arriving")
+		case nil != (reachQ{From: from, Target: endOfLine, Block: func(j ssa.Instruction) bool { ok, _ := isReset(j); return ok }}).run() && rearmsFromLast:
+			/* The timer armed at muting time wakes, finds the recorded
+			time too recent and goes back to sleep until that time plus
+			the pause: un-muting comes at the same moment. */
+			rArm.OK(fnName(wp)+":suppressed-write-rearms", posOf(ifi), "a suppressed write records its time; the timer function re-arms itself for that time plus the pause when it wakes too early")
 		case nil != (reachQ{From: from, Target: endOfLine, Block: func(j ssa.Instruction) bool { ok, _ := isReset(j); return ok }}).run():
 			rArm.Bad(fnName(wp)+":suppressed-write-rearms", posOf(ifi), "a suppressed plain write does not push the timer back")
 		default:
